@@ -8,6 +8,7 @@ import Uom.Proofs.BodyEq.Conv
 import Uom.Proofs.OracleSound
 import Uom.Proofs.BodyEq.Powi
 import Uom.Proofs.BodyEq.UnitMac
+import Uom.Proofs.BodyEq.FmtGlue
 import Uom.Proofs.BodyEq.LibConst
 import Uom.Proofs.DurPowOracleSound
 import Uom.Proofs.PowNormalDischarge
@@ -294,6 +295,12 @@ theorem src_storage_constant_float (f : Fmt) :
       (.val (.host (flS f).constAdd), []) ∧
     run (envLib (Fl.one f) (Fl.zero f false) Fl.neg) lib_Conversion_Self_for_V_constant_Float [.ctor0 c_ConstantOp_Sub] =
       (.val (.host (flS f).constSub), []) := float_constant_is_flS f
+
+/-- the trait default `Conversion::conversion(&self)` — the one every *unit* uses, `unit!` overrides only
+    `coefficient` and `constant` — is `Self::coefficient()`, whatever the receiver -/
+theorem src_default_conversion (k : RV Unit) (hk : k ≠ .bad) (hp : k ≠ .panicked) (x : RV Unit) :
+    run (Uom.BodyEq.FmtGlue.envConst c_Self_coefficient k) lib_free_conversion [x] = (.val k, []) :=
+  Uom.BodyEq.FmtGlue.default_conversion_eq k hk hp x
 
 end SourceTieLib
 
